@@ -23,3 +23,6 @@ func vAnd(a, b bool) bool             { return a && b }
 func vOr(a, b bool) bool              { return a || b }
 func vNot(a bool) bool                { return !a }
 func vIte(c bool, a, b int64) int64   { return a }
+func vCatchExit(f func()) (int, bool) { f(); return 0, false }
+type vStop struct{}
+func vPermuteMaps(on bool) {}
